@@ -10,7 +10,7 @@ import warnings
 
 import numpy as np
 
-from ..snap import OFFGRID, snap_garray, snap_gint
+from ..snap import snap_garray
 
 LETTERS = "abcdefghijklmnopqrstuvwxyzABCDEFGHIJKLMNOPQRSTUVWXYZ"
 DENMAX = 200000          # <psi|psi> of generated states (keeps TLC's 32-bit sums and float snapping safe)
@@ -126,7 +126,7 @@ class Geo:
         return b in self.neigh[a]
 
     # simple-update gauges converged on a copy; (None, None) if the gauged pair does not denote the
-    # same state to 1e-10 (measured with numpy) - that would be a matter for C04, not for this check
+    # same state to 1e-12 (measured with numpy) - that would be a matter for C04, not for this check
     def gauged(self):
         if self._gauged is None:
             tng = self.tn.copy()
@@ -146,7 +146,7 @@ class Geo:
                             t[1] = t[1] * g.reshape(shp)
                             break
                 psig = np_dense([(i, a) for i, a in ts], [tng.site_ind(s) for s in self.sites])
-                good = bool(np.all(np.isfinite(psig))) and float(np.abs(psig - self.psi).max()) <= 1e-10 * max(1.0, float(np.abs(self.psi).max()))
+                good = bool(np.all(np.isfinite(psig))) and float(np.abs(psig - self.psi).max()) <= 1e-12 * max(1.0, float(np.abs(self.psi).max()))
                 good = good and all(np.all(np.isfinite(np.asarray(g))) and float(np.min(np.abs(np.asarray(g)))) > 1e-6 for g in gauges.values())
             except Exception:  # noqa
                 good = False
@@ -382,8 +382,11 @@ def r_gloop(geo, where, G, nrm, rng, bare=False):
         # a single loop has nothing dangling: reduction is the identity
         kw["autoreduce"] = rng.choice([False, True])
     span = tuple(geo.sites)
-    desc = "gauges=%s,%s" % ("converged" if use_g else "{}", ",".join("%s=%s" % kv for kv in sorted(kw.items())))
-    return tn.local_expectation_gloop_expand(G, w, gloops=[span], gauges=gauges, normalized=nrm, **kw), desc
+    norm_arg = nrm
+    if nrm:     # the documented spellings of "normalise" (all the same number for one region)
+        norm_arg = rng.choice([True, True, "prod"] if kw["combine"] == "prod" else [True, "local", "separate"])
+    desc = "gauges=%s,normalized=%s,%s" % ("converged" if use_g else "{}", norm_arg, ",".join("%s=%s" % kv for kv in sorted(kw.items())))
+    return tn.local_expectation_gloop_expand(G, w, gloops=[span], gauges=gauges, normalized=norm_arg, **kw), desc
 
 
 def r_gloop_tree_reduce(geo, where, G, nrm, rng, bare=False):
@@ -603,6 +606,65 @@ EXPECT_ROUTES = {
 }
 
 
+# ---- several terms in one call: f(geo, terms {key: G}, nrm, return_all, rng) -> (dict or scalar, options)
+def x_exact(geo, terms, nrm, ra, rng):
+    return geo.tn.compute_local_expectation_exact(terms, normalized=nrm, return_all=ra), ""
+
+
+def x_cluster(geo, terms, nrm, ra, rng):
+    kw = {"max_distance": _spanning_distance(geo), "fillin": rng.choice([False, True])}
+    tn = geo.tn
+    if rng.random() < 0.5:
+        tng, gauges = geo.gauged()
+        if tng is not None:
+            tn = tng
+            kw["gauges"] = gauges
+    return tn.compute_local_expectation_cluster(terms, normalized=nrm, return_all=ra, **kw), ",".join(sorted(k for k in kw))
+
+
+def x_compressed(geo, terms, nrm, ra, rng):
+    kw, desc = _compressed_opts(rng)
+    return geo.tn.compute_local_expectation(terms, normalized=nrm, return_all=ra, **kw), desc
+
+
+def x_canonical(geo, terms, nrm, ra, rng):
+    mps, info, d = _mps_copy(geo, rng)
+    inplace = rng.random() < 0.5
+    return mps.compute_local_expectation(terms, normalized=nrm, return_all=ra, method="canonical", info=info, inplace=inplace), "%s,inplace=%s" % (d, inplace)
+
+
+def x_envs(geo, terms, nrm, ra, rng):
+    return geo.tn.compute_local_expectation(terms, normalized=nrm, return_all=ra, method="envs"), ""
+
+
+def x_plaquette(geo, terms, nrm, ra, rng):
+    kw = {"max_bond": rng.choice([None, 64, 256]), "mode": rng.choice(PEPS_MODES), "canonize": rng.choice([True, False]),
+          "autogroup": rng.choice([True, False]), "layer_tags": rng.choice([("KET", "BRA"), None])}
+    if kw["mode"] == "full-bond" and kw["max_bond"] is None:
+        kw["max_bond"] = 256
+    desc = ",".join("%s=%s" % kv for kv in sorted(kw.items()))
+    x = geo.tn.compute_local_expectation(terms, normalized=nrm, return_all=ra, **kw)
+    if ra:
+        x = {k: (e / n if nrm else e) for k, (e, n) in x.items()}
+    return x, desc
+
+
+def x_boundary3d(geo, terms, nrm, ra, rng):
+    kw = {"max_bond": rng.choice([None, 256]), "canonize": rng.choice([True, False]), "flatten": rng.choice([False, True])}
+    return geo.tn.compute_local_expectation(terms, normalized=nrm, return_all=ra, **kw), ",".join("%s=%s" % kv for kv in sorted(kw.items()))
+
+
+MULTI_ROUTES = {
+    "compute_local_expectation_exact": x_exact,
+    "compute_local_expectation_cluster": x_cluster,
+    "compute_local_expectation_compressed": x_compressed,
+    "compute_local_expectation_canonical": x_canonical,
+    "compute_local_expectation_via_envs": x_envs,
+    "peps_compute_local_expectation": x_plaquette,
+    "peps3d_compute_local_expectation": x_boundary3d,
+}
+
+
 # ---- reduced density matrices: f(...) -> (matrix rows=ket in the order of `where`, options, extra dict)
 def _ds(geo, where):
     return [geo.dims[geo.pos[s]] for s in where]
@@ -762,11 +824,32 @@ def op_dense(op, where):
 
 
 # --------------------------------------------------------------------------- snapping
-def snap_scalar(x, scale):
-    s = snap_gint(x, SNAPTOL, float(scale))
-    return (False, [0, 0]) if s == OFFGRID else (True, s)
+def _atol(bound):
+    """absolute tolerance in lattice units: 1e-9 relative to the natural magnitude `bound` of the quantity
+    (|<psi|G|psi>| <= <psi|psi> * sum|G|, |rho_ab| <= <psi|psi>), at least SNAPTOL, never more than 0.05 -
+    a wrong convention moves a value by >= 1 unit or generically off the lattice"""
+    return min(0.05, max(SNAPTOL, 1e-9 * float(bound)))
 
 
-def snap_matrix(a, scale):
-    s = snap_garray(np.asarray(a), SNAPTOL, float(scale))
-    return (False, []) if s == OFFGRID else (True, s)
+def snap_scalar(x, scale, bound=1.0):
+    try:
+        x = complex(x) * float(scale)
+    except Exception:  # noqa
+        return False, [0, 0]
+    if not (np.isfinite(x.real) and np.isfinite(x.imag)):
+        return False, [0, 0]
+    re, im = round(x.real), round(x.imag)
+    t = _atol(bound)
+    if abs(x.real - re) > t or abs(x.imag - im) > t or abs(re) >= 2 ** 30 or abs(im) >= 2 ** 30:
+        return False, [0, 0]
+    return True, [int(re), int(im)]
+
+
+def snap_matrix(a, scale, bound=1.0):
+    out = []
+    for x in np.asarray(a).reshape(-1):
+        ok, s = snap_scalar(x, scale, bound)
+        if not ok:
+            return False, []
+        out.append(s)
+    return True, out
